@@ -1,0 +1,48 @@
+//go:build verif
+
+/*
+ Licensed to the Apache Software Foundation (ASF) under one
+ or more contributor license agreements.  See the NOTICE file
+ distributed with this work for additional information
+ regarding copyright ownership.  The ASF licenses this file
+ to you under the Apache License, Version 2.0 (the
+ "License"); you may not use this file except in compliance
+ with the License.  You may obtain a copy of the License at
+
+     http://www.apache.org/licenses/LICENSE-2.0
+
+ Unless required by applicable law or agreed to in writing, software
+ distributed under the License is distributed on an "AS IS" BASIS,
+ WITHOUT WARRANTIES OR CONDITIONS OF ANY KIND, either express or implied.
+ See the License for the specific language governing permissions and
+ limitations under the License.
+*/
+
+package objects
+
+import (
+	"github.com/apache/yunikorn-core/pkg/common/resources"
+	"github.com/apache/yunikorn-core/pkg/scheduler/policies"
+)
+
+// Export shims for the sorting conformance check (C19, build tag verif). No behaviour of their own.
+
+// VerifSortApplicationSlice runs the application comparator selected by (sortType, considerPriority) on a slice whose
+// order is chosen by the caller. sortApplications itself starts from a map, so its input order cannot be controlled;
+// the dispatch below is the one of sortApplications (which is exercised separately through VerifSortApplications).
+func VerifSortApplicationSlice(apps []*Application, sortType policies.SortPolicy, considerPriority bool, globalResource *resources.Resource) {
+	switch sortType {
+	case policies.FairSortPolicy:
+		if considerPriority {
+			sortApplicationsByPriorityAndFairness(apps, globalResource)
+		} else {
+			sortApplicationsByFairnessAndPriority(apps, globalResource)
+		}
+	case policies.FifoSortPolicy:
+		if considerPriority {
+			sortApplicationsByPriorityAndSubmissionTime(apps)
+		} else {
+			sortApplicationsBySubmissionTimeAndPriority(apps)
+		}
+	}
+}
